@@ -81,6 +81,36 @@ def char_mutate(rng, text):
     return "".join(s)
 
 
+def byte_mutate(rng, text):
+    """Byte-level damage to the UTF-8 file: stray high bytes, Latin-1 / UTF-16 encodings, BOMs, truncated sequences, NULs."""
+    r = rng.randrange(7)
+    if r == 0:
+        return text.replace("//", "// caf\u00e9", 1).encode("latin-1", "replace")
+    if r == 1:
+        return text.encode(rng.choice(["utf-16", "utf-16-le", "utf-32"]))
+    if r == 2:
+        return rng.choice([b"\xef\xbb\xbf", b"\xff\xfe", b"\xfe\xff"]) + text.encode("utf-8")
+    b = bytearray(text.encode("utf-8"))
+    if r == 3:
+        return bytes(b) + rng.choice([b"\xe4", b"\xe4\xb8", b"\xf0\x9f\x98", b"\xc3"])  # truncated multi-byte sequence at EOF
+    for _ in range(rng.choice([1, 1, 2, 5])):
+        i = rng.randrange(len(b) + 1)
+        if r == 4:
+            b[i:i] = bytes([rng.randrange(0x80, 0x100)])
+        elif r == 5 and b:
+            b[min(i, len(b) - 1)] = rng.choice([0x00, 0x80, 0xBF, 0xC0, 0xED, 0xFF, 0xA0])
+        else:
+            b[i:i] = rng.choice([b"\xed\xa0\x80", b"\xc0\x80", b"\xf4\x90\x80\x80", b"\x00", b"\xe2\x80\xa8"])
+    return bytes(b)
+
+
+def huge_number(rng):
+    """Integer spellings around the limits of the host language's integer/string conversion."""
+    return rng.choice(["9" * 30, "9" * 400, "9" * 4000, "9" * 5000, "0x" + "F" * 3500, "0x" + "f" * 4000, "0x" + "0" * 5000 + "1",
+                       "9" * 4000 + " * " + "9" * 4000, "(" + "9" * 4299 + " + 1) * 10", "1 - 0x" + "F" * 3500 + " * 0x" + "F" * 3500,
+                       "0x" + "F" * 3500 + " / 3", "9" * 4000 + " * 0", "7 - " + "9" * 4300])
+
+
 def structured(rng):
     """Hostile shapes: long dotted names, deep nesting, long expressions, huge numbers."""
     r = rng.randrange(9)
@@ -110,7 +140,19 @@ def structured(rng):
         n = rng.choice([10, 300, 2000])
         return "proto p\nconst A = " + rng.choice([" + ", " - ", " * ", " / "]).join(str(rng.randint(1, 9)) for _ in range(n)) + "\n"
     if r == 4:
-        return "proto p\nconst A = " + "9" * rng.choice([30, 400, 5000]) + "\nmessage M { byte[A] x = 1 }\n"
+        n = huge_number(rng)
+        lit = n if not any(c in n for c in "+-*/") else "0x" + "F" * 3500  # positions that take a literal only
+        return rng.choice([
+            f"proto p\nconst A = {n}\nmessage M {{ byte[A] x = 1 }}\n",
+            f"proto p\nconst A = {n}\n",
+            f"proto p\nconst A = {n}\nconst B = A * A\nconst C = B / A\n",
+            f"proto p\nmessage M {{ byte[{lit}] x = 1 }}\n",
+            f"proto p\nmessage M {{ byte x = {lit} }}\n",
+            f"proto p\nenum E : uint8 {{ V = {lit} }}\n",
+            f"proto p\nconst A = {n}\nmessage M {{ option max_bytes = A; byte x = 1 }}\n",
+            f"proto p\nconst A = {n}\noption c.struct_packing_alignment = A\n",
+            f"proto p\nmessage M {{ uint{lit.replace('0x', '')[:4400].replace('F', '9').replace('f', '9')} x = 1 }}\n",
+        ])
     if r == 5:
         n = rng.choice([10, 255, 300])
         return "proto p\nmessage M {\n" + "".join(f"  uint{1 + k % 64} f{k} = {1 + k}\n" for k in range(n)) + "}\n"
@@ -171,7 +213,10 @@ def worker(ctx):
         def ask(self, text, render):
             """Returns the reply dict, or None when the child burnt CPU_LIMIT on this input (it is killed and restarted)."""
             import select
-            payload = (("R" if render else "P") + text).encode("utf-8", "surrogatepass")
+            if isinstance(text, bytes):
+                payload = (b"I" if render == "import" else b"F") + text
+            else:
+                payload = (("R" if render else "P") + text).encode("utf-8", "surrogatepass")
             c0 = self.cpu()
             try:
                 self.p.stdin.write(b"%08x" % len(payload) + payload)
@@ -233,7 +278,7 @@ def worker(ctx):
             rep = ex.ask(text, render)  # once more, alone in a fresh process, before a hang is reported
             if rep is None:
                 res.violation("hang", f"parse/render did not return within {Executor.CPU_LIMIT:.0f} s of CPU time, twice, for a {len(text)}-character input from {origin}",
-                              {"input": text[:4000], "origin": origin})
+                              {"input": text[:4000] if isinstance(text, str) else {"bytes_hex": text[:4000].hex(), "as": "imported file" if render == "import" else "main file"}, "origin": origin})
                 return False
         dt = time.time() - t0
         if dt * 1000 > res.counters.get("slowest_ms", 0):
@@ -245,11 +290,16 @@ def worker(ctx):
         res.count("renders", rep["renders"])
         res.count("renders_optimisation_mode", rep["renders_opt"])
         for pr in rep["problems"]:
-            res.violation(pr["key"], pr["what"] + f" (origin {origin})", {"input": text[:4000], "origin": origin, "traceback": pr["traceback"]})
+            shown = text[:4000] if isinstance(text, str) else {"bytes_hex": text[:4000].hex(), "as": "imported file" if render == "import" else "main file"}
+            res.violation(pr["key"], pr["what"] + f" (origin {origin})", {"input": shown, "origin": origin, "traceback": pr["traceback"]})
         return st == "accepted"
 
     if ctx.replay is not None:
-        run_one(ctx.replay["witness"]["input"], "replay", True)
+        inp = ctx.replay["witness"]["input"]
+        if isinstance(inp, dict):
+            run_one(bytes.fromhex(inp["bytes_hex"]), "replay", "import" if inp["as"] == "imported file" else True)
+        else:
+            run_one(inp, "replay", True)
         ex.close()
         return
     k = 0
@@ -274,6 +324,11 @@ def worker(ctx):
             text, origin = "".join(base[:cut]), "truncation"
         elif r < 0.93:
             text, origin = structured(rng), "structured"
+        elif r < 0.96:
+            # the file as the operating system holds it: bytes that need not be UTF-8 text (main file or imported file)
+            text, origin = byte_mutate(rng, "".join(base)), "byte-mutation"
+            run_one(text, origin, "import" if rng.random() < 0.4 else True)
+            continue
         else:
             text, origin = "".join(base), "valid"
         want_render = (origin != "valid" or rng.random() < 0.3) and accepted_rendered < n_inputs // 6
@@ -347,14 +402,15 @@ if __name__ == "__main__":
     harness.main(
         "C09", "props.C09", worker,
         rule=("inputs: token-level mutations (delete/duplicate/swap/replace/insert/splice) of printed valid schemas over the language's vocabulary incl. "
-              "odd widths, huge numbers, bad escapes, unterminated strings, division by zero; character-level mutations of the same texts (valid "
-              "Unicode text only); random token strings; truncation at every kind of token boundary; hostile structured shapes (400-component dotted "
-              "names, 120-deep message nesting, 400-deep parentheses, 2000-term expressions, 5000-digit numbers, 300-field messages, empty/500-member "
+              "odd widths, huge numbers, bad escapes, unterminated strings, division by zero; character-level mutations of the same texts; byte-level "
+              "damage of the UTF-8 file (Latin-1, UTF-16/32, BOMs, truncated sequences, stray high bytes, surrogates, NULs) written to a main file or to an "
+              "imported file and parsed from disk; random token strings; truncation at every kind of token boundary; hostile structured shapes (400-component dotted "
+              "names, 120-deep message nesting, 400-deep parentheses, 2000-term expressions, integers around the host's print limit (4000/5000-digit decimals, 3500/4000-digit hex, products, sums at the limit) in every position that takes an integer, 300-field messages, empty/500-member "
               "enums, alias chains); every accepted text is rendered for c, go, py and (when traditional) c -O, go -O; the parser runs in an executor child process watched from outside: 20 s of CPU time on one input, twice, is a hang; the real CLI is sampled for tracebacks; an evaluation = one input text; distinct_nontrivial counts accepted "
               "inputs that were rendered plus distinct parser error classes provoked"),
-        assumptions=["inputs are Python str (decodable text); an import of a missing file is an OSError and allowed",
+        assumptions=["an import of a missing file is an OSError and allowed",
                      "coverage-guided fuzzing (atheris) runs only in the thorough tier"],
-        required_counters=["inputs", "accepted", "rejected", "renders", "renders_optimisation_mode", "cli_runs"],
+        required_counters=["inputs", "accepted", "rejected", "renders", "renders_optimisation_mode", "cli_runs", "inputs:byte-mutation", "inputs:structured"],
         extra_coverage=lambda res: {"distinct_parser_error_classes": len(res.sets.get("parser_error_classes", set()))},
         finish=lambda res, ev: ev["coverage"].__setitem__("distinct_nontrivial", res.counters.get("renders", 0) // 3 + len(res.sets.get("parser_error_classes", set()))),
     )
